@@ -21,8 +21,9 @@ REPO = os.path.realpath(os.environ.get("VERIF_REPO", "/repo"))
 
 
 class Recorder:
-    def __init__(self, capture=()):
+    def __init__(self, capture=(), funcs=("elaborate",)):
         self.capture = tuple(capture)
+        self.funcs = tuple(funcs)
         self.functions = set()  # (qualname, relative file)
         self.frames = []  # (self object, dict of locals) for captured classes, in return order
 
@@ -31,10 +32,10 @@ class Recorder:
             fn = frame.f_code.co_filename
             if fn.startswith(REPO + "/transactron"):
                 self.functions.add((frame.f_code.co_qualname, fn[len(REPO) + 1 :]))
-        elif event == "return" and self.capture and frame.f_code.co_name == "elaborate":
+        elif event == "return" and self.capture and frame.f_code.co_name in self.funcs:
             slf = frame.f_locals.get("self")
             if isinstance(slf, self.capture):
-                self.frames.append((slf, dict(frame.f_locals)))
+                self.frames.append((slf, dict(frame.f_locals), frame.f_code.co_name))
 
     def __enter__(self):
         self._old = sys.getprofile()
@@ -44,14 +45,14 @@ class Recorder:
     def __exit__(self, *a):
         sys.setprofile(self._old)
 
-    def locals_of(self, obj):
-        r = [loc for (s, loc) in self.frames if s is obj]
+    def locals_of(self, obj, func="elaborate"):
+        r = [loc for (s, loc, fn) in self.frames if s is obj and fn == func]
         if len(r) != 1:
-            raise KeyError(f"elaborate frame of {obj!r}: {len(r)} candidates")
+            raise KeyError(f"{func} frame of {obj!r}: {len(r)} candidates")
         return r[0]
 
-    def locals_of_class(self, cls):
-        return [(s, loc) for (s, loc) in self.frames if isinstance(s, cls)]
+    def locals_of_class(self, cls, func="elaborate"):
+        return [(s, loc) for (s, loc, fn) in self.frames if isinstance(s, cls) and fn == func]
 
 
 _sha_cache = {}
@@ -123,6 +124,21 @@ class HW:
         extra = [n for n, v in self.ts.inputs.items() if str(v) not in known]
         if extra:
             raise RuntimeError(f"harness error: netlist has undeclared input ports {extra}")
+
+    def regs_fed_by(self, signal):
+        """State keys of the flip-flops that are one-cycle delays of `signal`: next == signal whenever the
+        synchronous reset is low (decided by the solver, so the reset multiplexer in front of the register
+        does not matter)."""
+        want = self.ts.sig(signal)
+        out = []
+        for key, var in self.ts.state.items():
+            if key[0] != "ff" or var.size() != want.size():
+                continue
+            s_ = z3.Solver()
+            s_.add(self.no_reset(), self.ts.next[key] != want)
+            if s_.check() == z3.unsat:
+                out.append(key)
+        return out
 
     # -- ghost state ------------------------------------------------------------------------------
     def ghost(self, name, width, init=0):
